@@ -15,6 +15,8 @@ NOT_PROVED = ["IEEE rounding of the cumulative sums (measured per case: max_roun
 ASSUMPTIONS = ["scipy.integrate.cumulative_trapezoid and np.cumsum are the sums their documentation states (prelude primitives, differentially tested)"]
 
 
+PROP_MODULES = ['C08', 'C08Gen']
+
 def run(ctx):
     import eqsig
     from eqsig import displacements as sd
